@@ -50,7 +50,8 @@ PARTIAL = ["a truncated message BODY followed by EOF makes pyarrow raise OSError
 RULE = (
     "structured generator: method x version x metadata keys/values x schema (declared / arbitrary types) x rows 0..3 x batches "
     "0..2 x shm segment kind (none, missing, real, weird name, foreign of size 1/8/16/23/24/25/4096/header-only with zero / wrong-version "
-    "/ wrong-size / valid headers) x advertised size x pointer validity; plus truncation at every offset (thorough) / "
+    "/ wrong-size / valid headers) x advertised size x pointer validity x content of the pointed-to region (stream with 0/1/2 batches, 0/3 rows, other schema, garbage, "
+    "every 8-byte truncation, length 0 / short / long / past the segment end, stale offset); plus truncation at every offset (thorough) / "
     "sampled offsets and byte corruptions of valid streams; a case = (bytes, transport); non-trivial when it is not the plain "
     "valid request; distinct by canonical JSON of the request description"
 )
@@ -167,6 +168,30 @@ def seg_md(ref: dict[str, Any] | None, segs: dict[str, Any]) -> dict[bytes, byte
     return out
 
 
+def _add_stream(n_batches: int = 1, rows: int = 1) -> bytes:
+    b = pa.RecordBatch.from_arrays([pa.array([1] * rows, pa.int64()), pa.array([2] * rows, pa.int64())], schema=ADD_SCHEMA)
+    return raw_stream(ADD_SCHEMA, [(b, None)] * n_batches)
+
+
+def region_specs() -> dict[str, tuple[bytes, int | None]]:
+    """Content of the shm region a pointer request points at: label -> (bytes written, advertised length or None = all)."""
+    full = _add_stream(1)
+    other = raw_stream(pa.schema([pa.field("s", pa.string())]), [(pa.RecordBatch.from_arrays([pa.array(["x"])], names=["s"]), None)])
+    specs: dict[str, tuple[bytes, int | None]] = {
+        "ok1": (full, None), "ok0": (_add_stream(0), None), "ok2": (_add_stream(2), None), "zero_rows": (_add_stream(1, rows=0), None),
+        "three_rows": (_add_stream(1, rows=3), None), "wrong_schema": (other, None),
+        "garbage_ff": (b"\xff" * 64, None), "garbage_13": (b"\x13" * 64, None), "garbage_zero": (bytes(64), None),
+        "garbage_text": (b"hello world, this is not arrow at all....", None), "garbage_cont": (b"\xff\xff\xff\xff\xff\xff\xff\x7f" + bytes(56), None),
+        "len0": (full, 0), "len_short": (full, len(full) - 40), "len_long": (full, len(full) + 64),
+    }
+    for k in sorted(set(range(0, len(full), 8)) | {1, 4, len(full) - 4, len(full) - 1}):
+        specs[f"trunc@{k}"] = (full[:k], None)
+    return specs
+
+
+REGION_LABELS = sorted(region_specs())
+
+
 MD_VALUES = [b"", b"1", b"0", b"-1", b"abc", b"\xff\xfe", b"9" * 40, b"4096", b"true", b"\x00", "ü".encode(), b"a" * 300]
 ARB_KEYS = [b"x", b"vgi_rpc.unknown", b"vgi_rpc.cancel", b"vgi_rpc.location", b"vgi_rpc.log_message", b"", b"\xff", b"vgi_rpc.stream_state#b64",
             b"vgi_rpc.request_id", b"vgi_rpc.shm_source"]
@@ -212,7 +237,8 @@ def gen_request(rng: Any, segs: dict[str, Any]) -> dict[str, Any]:
     if rng.random() < (0.5 if seg_kind != "none" else 0.08):
         # a shm pointer request: zero rows + offset (+ length)
         d["pointer"] = rng.choice(["valid", "valid", "garbage_region", "out_of_range", "negative", "offset_nonnumeric", "length_nonnumeric",
-                                   "no_length", "offset_nonutf8", "with_loglevel"])
+                                   "no_length", "offset_nonutf8", "with_loglevel", "past_end", "stale"]
+                                  + ["region:" + rng.choice(REGION_LABELS)] * 10)
     for _ in range(rng.choice([0, 0, 0, 1, 2])):
         put(rng.choice(ARB_KEYS), rng.choice(MD_VALUES))
     d["md"] = md
@@ -272,6 +298,12 @@ def build(d: dict[str, Any], segs: dict[str, Any]) -> bytes:
             off, ln = seg.size + 10_000, 64
         elif p == "negative":
             off, ln = -8, 64
+        elif p == "past_end":
+            off, ln = seg.size - 16, 64
+        elif p == "stale":
+            off, ln = segs["stale"]            # readable bytes of a valid stream at an offset the allocator does not know
+        elif p.startswith("region:"):
+            off, ln = segs["regions"][p[7:]]
         md[b"vgi_rpc.shm_offset"] = {"offset_nonnumeric": b"abc", "offset_nonutf8": b"\xff"}.get(p, str(off).encode())
         if p != "no_length":
             md[b"vgi_rpc.shm_length"] = b"zz" if p == "length_nonnumeric" else str(ln).encode()
@@ -310,7 +342,7 @@ def abstract(data: bytes, static_shm: Any, version: str | None) -> dict[str, Any
     rq: dict[str, Any] = {
         "openStream": "ok", "firstRead": "ok", "laterReads": [], "hasMethod": False, "methodText": True, "version": "absent",
         "traceparent": "absent", "tracestate": "absent", "shmName": "absent", "shmSize": "absent", "isPointer": False,
-        "staticShm": static_shm is not None, "shmOpen": "ok", "allocInit": "ok", "resolve": "ok", "release": "ok", "ncols": 0, "rows": 0, "asPy": "ok",
+        "staticShm": static_shm is not None, "shmOpen": "ok", "allocInit": "ok", "resolve": "ok", "deser": "ok", "release": "ok", "ncols": 0, "rows": 0, "asPy": "ok",
         "isTransportOptions": False, "methodKnown": False, "versionCheck": "ok", "validate": "ok", "call": "ok",
     }
     src = io.BytesIO(data)
@@ -382,8 +414,34 @@ def abstract(data: bytes, static_shm: Any, version: str | None) -> dict[str, Any
         if seg is None and rq["isPointer"]:
             seg = attached
         if seg is not None and rq["isPointer"]:
+            # the two halves of resolve_shm_batch, measured separately: the pointer checks, then the read of the region
+            import vgi_rpc.shm as _shm_mod
+
+            class _Reached(Exception):
+                pass
+
+            captured: list[Any] = []
+
+            def _stop(buf: Any, schema: Any) -> Any:
+                captured.append((buf, schema))
+                raise _Reached
+
+            real_deser = _shm_mod._deserialize_from_shm
+            _shm_mod._deserialize_from_shm = _stop
+            try:
+                try:
+                    resolve_shm_batch(batch, cm, seg)
+                    rq["resolve"] = "ok"
+                except _Reached:
+                    rq["resolve"] = "ok"
+                except BaseException as e:  # noqa: BLE001
+                    rq["resolve"] = {"raises": exc_class(e)}
+            finally:
+                _shm_mod._deserialize_from_shm = real_deser
+            if captured:
+                rq["deser"], _b = _step(lambda: real_deser(*captured[0]))
             st, res = _step(lambda: resolve_shm_batch(batch, cm, seg))
-            rq["resolve"] = st
+            rq["resolveWhole"] = st
             if st == "ok":
                 batch = res[0]
                 # would `shm.free(offset)` know this offset?  (looked up, not executed: the server does the freeing)
@@ -468,7 +526,17 @@ def make_segments() -> dict[str, Any]:
     junk = pa.RecordBatch.from_arrays([pa.array(list(range(64)), pa.int64())], names=["j"])
     off, ln = real.allocate_and_write(junk)
     real.buf[off : off + 64] = b"\x13" * 64
-    return {"foreigns": foreigns, "real": real, "valid_ptr": valid_ptr, "garbage_off": off}
+    regions = {}
+    for label, (raw, adv) in region_specs().items():
+        o = real._allocator.allocate(max(len(raw), 8) + 64)
+        real.buf[o : o + len(raw)] = raw
+        regions[label] = (o, len(raw) if adv is None else adv)
+    # a valid stream at an offset that is NOT in the allocation table (freed again)
+    so = real._allocator.allocate(1024)
+    full = _add_stream(1)
+    real.buf[so : so + len(full)] = full
+    real._allocator.free(so)
+    return {"foreigns": foreigns, "real": real, "valid_ptr": valid_ptr, "garbage_off": off, "regions": regions, "stale": (so, len(full))}
 
 
 def drop_segments(segs: dict[str, Any]) -> None:
@@ -496,6 +564,8 @@ def run_chunk(job: dict[str, Any]) -> list[dict[str, Any]]:
             transport = rng.choice(["pipe", "unix"])
             version = "1.2.3" if rng.random() < 0.15 else None
             half_close = False
+            if kind == "request" and rng.random() < 0.15:
+                transport = "shm"     # server side is a ShmPipeTransport over the real segment: pointers resolve without attach
             if kind == "request":
                 d = gen_request(rng, segs) if job.get("descs") is None else job["descs"][i]
                 data = build(d, segs)
@@ -524,19 +594,21 @@ def run_chunk(job: dict[str, Any]) -> list[dict[str, Any]]:
             uses_shm = b"vgi_rpc.shm_segment_name" in data
             # a connection is reused while it keeps serving (so "the next call is unaffected" is exercised for real); requests
             # that may leave a cached segment on the connection, version-gated servers and half-closing probes get their own
-            fresh = half_close or uses_shm or version is not None or probe is None or probe.kind != transport or rng.random() < 0.1
+            fresh = (half_close or uses_shm or transport == "shm" or version is not None or probe is None or probe.kind != transport
+                     or rng.random() < 0.1)
             if fresh and probe is not None:
                 probe.close()
                 probe = None
             if probe is None:
-                probe = Probe(transport, version)
-            rq = abstract(data, None, version)      # measured BEFORE sending: the server frees the regions it resolves
+                probe = Probe(transport, version, shm=segs["real"])
+            # measured BEFORE sending: the server frees the regions it resolves
+            rq = abstract(data, segs["real"] if transport == "shm" else None, version)
             r = probe.send(data, half_close=half_close, deadline=job.get("deadline", 6.0))
             out.append({"desc": desc, "transport": transport, "version": version, "hex": data.hex() if len(data) < 3000 else None,
                         "obs": {"outcome": r["outcome"], "reply": reply_class(r["reply"]), "server": r["server"], "detail": r.get("server_detail"),
                                 "raw_reply": r["reply"], "sentinel": r["sentinel"]},
                         "rq": rq, "reused": not fresh})
-            if r["outcome"] != "replyContinue" or half_close or uses_shm or version is not None:
+            if r["outcome"] != "replyContinue" or half_close or uses_shm or transport == "shm" or version is not None:
                 probe.close()
                 probe = None
     finally:
@@ -544,6 +616,66 @@ def run_chunk(job: dict[str, Any]) -> list[dict[str, Any]]:
             probe.close()
         drop_segments(segs)
     return out
+
+
+# ------------------------------------------------------------------------------------------ drained input (shm transport)
+
+DRAIN_OFFSETS = ["known", "unknown", "stale", "zero", "huge", "negative", "nonnumeric", "nonutf8", "empty", "float"]
+
+
+def run_drained(job: dict[str, Any]) -> list[dict[str, Any]]:
+    """A refused header-less stream call whose (never served) input stream the server drains with the transport's segment:
+    `_drain_refused_stream_input` -> `_drain_stream(reader, shm=…)` frees the region of every pointer batch it skips — the
+    offsets are the peer's claim.  Bytes = request for `badstream` ++ one input IPC stream; one error reply is expected and
+    the connection must keep serving."""
+    import random
+
+    from harness.common import rpcutil
+
+    rng = random.Random(job["seed"])
+    segs = make_segments()
+    out = []
+    try:
+        seg = segs["real"]
+        known = [o for o, _ in seg._allocator._read_allocs()]
+        combos = [(a, b) for a in DRAIN_OFFSETS for b in (None, *DRAIN_OFFSETS[:4])] if job.get("all") else None
+        for i in range(len(combos) if combos else job["n"]):
+            offs = list(combos[i]) if combos else [rng.choice(DRAIN_OFFSETS) for _ in range(rng.choice([1, 1, 2, 3]))]
+            offs = [o for o in offs if o is not None]
+            empty = pa.schema([])
+            batches = []
+            for o in offs:
+                val = {"known": str(rng.choice(known)).encode(), "unknown": b"12345", "stale": str(segs["stale"][0]).encode(), "zero": b"0",
+                       "huge": b"9" * 30, "negative": b"-64", "nonnumeric": b"abc", "nonutf8": b"\xff", "empty": b"", "float": b"1.5"}[o]
+                md = {b"vgi_rpc.shm_offset": val}
+                if rng.random() < 0.7:
+                    md[b"vgi_rpc.shm_length"] = rng.choice([b"64", b"abc", b"-1"])
+                batches.append((pa.RecordBatch.from_pylist([], schema=empty), md))
+                if rng.random() < 0.3:
+                    batches.append((pa.RecordBatch.from_pylist([], schema=empty), None))      # a plain tick in between
+            req = rpcutil.request_bytes("badstream", SCHEMAS["boom"], {"a": 1})
+            data = req + raw_stream(empty, batches)
+            p = Probe("shm", None, shm=seg)
+            r = p.send(data, deadline=job.get("deadline", 6.0))
+            p.close()
+            out.append({"desc": {"kind": "drained", "d": {"offsets": offs}}, "transport": "shm", "version": None,
+                        "hex": data.hex() if len(data) < 3000 else None,
+                        "obs": {"outcome": r["outcome"], "reply": reply_class(r["reply"]), "server": r["server"], "detail": r.get("server_detail"),
+                                "raw_reply": r["reply"], "sentinel": r["sentinel"]}, "rq": None, "reused": False})
+    finally:
+        drop_segments(segs)
+    return out
+
+
+def judge_drained(ctx: Any, rec: dict[str, Any]) -> None:
+    obs, desc = rec["obs"], rec["desc"]
+    case = {"desc": desc, "transport": rec["transport"], "version": None, "hex": rec["hex"]}
+    ctx.case(case, nontrivial=True, tags=["k:drained", f"obs:{obs['outcome']}"] + [f"drain-offset:{o}" for o in desc["d"]["offsets"]])
+    srvx = obs["server"].split(":")[-1] if obs["server"].startswith("raised") else obs["server"]
+    if obs["outcome"] != "replyContinue" or obs["reply"] != "otherError":
+        ctx.fail(case, f"C05:drained:{obs['outcome']}:{srvx}",
+                 f"refused stream call followed by an input stream with pointer batches {desc['d']['offsets']}: expected the init error and a "
+                 f"serving connection, got {obs['outcome']} (reply={obs['raw_reply']}, server={obs['server']} {(obs['detail'] or '')[:80]})")
 
 
 # ------------------------------------------------------------------------------------------ judge
@@ -569,9 +701,9 @@ def judge(ctx: Any, rec: dict[str, Any]) -> None:
     d = desc["d"]
     plain = (desc["kind"] == "request" and d["method"] in KNOWN_METHODS and d["version"] == "31" and not d["md"] and not d.get("seg") and d["cols"] == "declared"
              and d["rows"] == 1 and d["pointer"] is None and d["batches"] == 1)
-    tags = [f"k:{desc['kind']}", f"t:{rec['transport']}", f"obs:{obs['outcome']}", f"reply:{obs['reply']}", f"wellframed:{wf}"]
+    tags = [f"k:{desc['kind']}", f"t:{rec['transport']}", f"static-shm:{rq['staticShm']}", f"obs:{obs['outcome']}", f"reply:{obs['reply']}", f"wellframed:{wf}"]
     if desc["kind"] == "request":
-        tags += [f"seg:{d['seg_kind']}" + (":" + d["seg"]["label"] if d.get("seg") and d["seg_kind"] == "foreign" else ""), f"ptr:{d['pointer']}", f"cols:{d['cols']}", f"rows:{d['rows']}", f"batches:{d['batches']}"]
+        tags += [f"seg:{d['seg_kind']}" + (":" + d["seg"]["label"] if d.get("seg") and d["seg_kind"] == "foreign" else ""), f"ptr:{(d['pointer'] or 'None').split('@')[0]}", f"cols:{d['cols']}", f"rows:{d['rows']}", f"batches:{d['batches']}"]
     else:
         tags += [f"mode:{desc['mode']}", f"ipcfail:{first_ipc_failure(rq)}"]
     if rec["reused"]:
@@ -592,7 +724,8 @@ def judge(ctx: Any, rec: dict[str, Any]) -> None:
     # ---- the hypotheses of C05_wellframed about the primitives (Spec.PrimitivesSane), checked on what was measured
     OSF = {"OSError", "FileNotFoundError", "PermissionError", "BrokenPipeError", "ConnectionResetError", "ConnectionAbortedError"}
     VF = {"ValueError", "UnicodeDecodeError", "ArrowInvalid"}
-    for prim, allowed in (("shmOpen", OSF | VF), ("allocInit", VF | {"StructError"}), ("attachWhole", OSF | VF), ("resolve", VF), ("release", VF)):
+    for prim, allowed in (("shmOpen", OSF | VF), ("allocInit", VF | {"StructError"}), ("attachWhole", OSF | VF), ("resolve", VF),
+                          ("deser", VF | OSF | {"StopIteration"}), ("resolveWhole", VF), ("release", VF)):
         st = rq.get(prim, "ok")
         if isinstance(st, dict) and st["raises"] not in allowed:
             ctx.fail(case, f"C05:primitive:{prim}:{st['raises']}",
@@ -658,7 +791,10 @@ def corpus_descs() -> list[dict[str, Any]]:
         w(seg_kind="real", seg=REAL, pointer="no_length"),
         w(seg_kind="real", seg=REAL, pointer="garbage_region"),
         w(seg_kind="real", seg=REAL, pointer="out_of_range"),
-        w(seg_kind="real", seg=REAL, pointer="valid"),
+        w(seg_kind="real", seg=REAL, pointer="valid"), w(seg_kind="real", seg=REAL, pointer="past_end"),
+        w(seg_kind="real", seg=REAL, pointer="stale"),
+        # what the pointed-to region holds: streams with 0 / 1 / 2 batches, other schema, garbage, every truncation, lengths
+        *[w(seg_kind="real", seg=REAL, pointer="region:" + lab) for lab in REGION_LABELS],
         w(batches=0),
         w(batches=2),
         w(cols="nasty", colseed=1), w(cols="nasty", colseed=2), w(cols="nasty", colseed=3), w(cols="nasty", colseed=4),
@@ -707,16 +843,22 @@ def run(ctx: Any) -> None:
         for s in range(ctx.budget(1, 4)):
             jobs.append({"kind": "corrupt", "n": 700, "seed": 1000 + s, "offsets": list(range(700))})
     results: list[list[dict[str, Any]]] = []
+    djobs = [{"seed": 7, "n": 0, "all": True}, {"seed": rng.randrange(1 << 40), "n": ctx.budget(60, 1500)}]
     try:
         with _pool() as ex:
             fut_c = ex.submit(run_corpus, {})
+            fut_d = [ex.submit(run_drained, j) for j in djobs]
             results = list(ex.map(run_chunk, jobs))
             results.insert(0, fut_c.result())
+            results += [f.result() for f in fut_d]
     except Exception as e:  # noqa: BLE001
         ctx.note("pool_error", repr(e)[:200])
-        results = [run_corpus({})] + [run_chunk(j) for j in jobs[: max(2, len(jobs) // 8)]]
+        results = [run_corpus({})] + [run_chunk(j) for j in jobs[: max(2, len(jobs) // 8)]] + [run_drained(j) for j in djobs]
     for recs in results:
         for rec in recs:
+            if rec["desc"]["kind"] == "drained":
+                judge_drained(ctx, rec)
+                continue
             if rec["obs"]["outcome"] == "hang":
                 # a miss of the deadline may be CPU starvation of the worker: confirm alone, with a long deadline
                 ctx.tag("rerun-after-deadline")
@@ -754,5 +896,11 @@ def reprobe(case: dict[str, Any], deadline: float) -> dict[str, Any]:
 def replay(ctx: Any, case: dict[str, Any] | None) -> None:
     if case is None:          # a "no-longer-checks" replay carries no single failing input: run the check
         run(ctx)
+        return
+    if case["desc"]["kind"] == "drained":
+        # offsets refer to the worker's own segment: re-run the exhaustive small set (it contains every offset class)
+        for rec in run_drained({"seed": 7, "n": 0, "all": True, "deadline": 10.0}):
+            if rec["desc"]["d"]["offsets"] == case["desc"]["d"]["offsets"]:
+                judge_drained(ctx, rec)
         return
     judge(ctx, reprobe(case, 10.0))
